@@ -386,7 +386,7 @@ RULE_ADDENDA = {
            "1 in 4 histories start from an adopted session whose pending identifiers stand 1-3 before the 14-bit wrap; every "
            "history draws pipe-like or socket-like connections. writerStuckThenReadFails (a publisher parked inside Write while only the inbound direction fails: the read routine must give the connection up); emptyPayloadCut (a fault right behind a packet without payload). Behind the recording Persistence double sits, per case, its own map (5 in 8), the library's in-memory map (2 in 8) or mqtt.FileSystem on a scratch directory (1 in 8). One case in five runs on a session made the way VolatileSession makes it (the library's map, no checksum layer). brokerSend (inbound traffic of all levels shares the read routine's buffers). CleanSession is requested in 1 of 3 histories. One case in four ends over a link which is slow yet steady: from the drain on every connection's write deadline expires after progress each 19 bytes; the backlog must go out all the same.",
     'C02': "Also: the first process asks for a clean session in 1 of 3 histories (the adopting processes never do); the broker "
-           "model forgets its session on a CONNECT which carries the flag. Behind the recording Persistence double sits, per case, its own map (5 in 8), the library's in-memory map (2 in 8) or mqtt.FileSystem on a scratch directory (1 in 8). TestC02FullWindow: adoption of a synthetic store with 16384, 16383 or 8192 transfers of one level pending, the oldest at identifier 0, 1, 0x1fff, 0x2000, 0x3ffe or 0x3fff, for level 2 with 0, 1, half, all but one or all at the PUBREL stage: exactly these are on the first connection, in order; a further publish gets ErrMax exactly when 16384 are pending.",
+           "model forgets its session on a CONNECT which carries the flag. Behind the recording Persistence double sits, per case, its own map (5 in 8), the library's in-memory map (2 in 8) or mqtt.FileSystem on a scratch directory (1 in 8). TestC02FullWindow: adoption of a synthetic store with 16384, 16383 or 8192 transfers of one level pending, the oldest at identifier 0, 1, 0x1fff, 0x2000, 0x3ffe or 0x3fff, for level 2 with 0, 1, half, all but one or all at the PUBREL stage: exactly these are on the first connection, in order; a further publish gets ErrMax exactly when 16384 are pending. At one stop point in four the adoption is tried twice: the first try runs into a transient Load error (the n-th Load fails, n in 1-6); at one in five of the others the first try has limits of 1-3 (refused when more is pending): nothing accepted may get lost over either.",
     'C03': "Also: the first process asks for a clean session in 1 of 3 histories (the adopting processes never do); the broker "
            "model forgets its session on a CONNECT which carries the flag. Behind the recording Persistence double sits, per case, its own map (5 in 8), the library's in-memory map (2 in 8) or mqtt.FileSystem on a scratch directory (1 in 8).",
     'C04': "Also: restart optionally after an orderly end (Close from another goroutine while the application holds the last "
@@ -421,7 +421,7 @@ RULE_ADDENDA = {
            "slowSave overlaps Saves of the read routine and of both publish levels. A single-byte alteration of an inbound marker must be reported by AdoptSession too; the parked publish of slowSave may be retained, and 0-2 QoS 0 publishes compose their packets meanwhile. In 1 of 4 adoptions of the damaged store Persistence.Delete fails once (no panic, still reported, never used). Behind the recording Persistence double sits, per case, its own map (5 in 8), the library's in-memory map (2 in 8) or mqtt.FileSystem on a scratch directory (1 in 8). After the adoption of the altered store the first ReadSlices must neither panic nor fail (client-identifier record excepted: F17).",
     'C16': "Also: AtLeastOnceMax/ExactlyOnceMax from {16,16,2,3,4}; 1 in 8 adoptions with Persistence.Delete failing once "
            "(only 'no panic' is judged then); 'second life' (the adopted client fills its queues, the process stops, the next "
-           "AdoptSession without new damage must work, connect and complete). Before the second stop 0-4 PUBRECs are released; every transfer the adopted client itself accepted and had pending at its stop must be on the first connection of the next process. Behind the recording Persistence double sits, per case, its own map (5 in 8), the library's in-memory map (2 in 8) or mqtt.FileSystem on a scratch directory (1 in 8). In 1 of 4 adoptions the store is mqtt.FileSystem with 1-3 stray directory entries next to the records: an upper-case spelling of a record's name, a sub-directory named like a key, a spool leftover, foreign files, names of 4 and 6 hexadecimals. Damage kind 'hollow': a record whose bytes are well formed (sequence number plus matching checksum) yet hold no packet. One adoption in five is preceded by a misconfigured one (limits of 1) whose warnings count. Stray directories named like a record which a publish of the history will store are excluded by construction (open finding F31, probe TestC16KnownF31).",
+           "AdoptSession without new damage must work, connect and complete). Before the second stop 0-4 PUBRECs are released; every transfer the adopted client itself accepted and had pending at its stop must be on the first connection of the next process. Behind the recording Persistence double sits, per case, its own map (5 in 8), the library's in-memory map (2 in 8) or mqtt.FileSystem on a scratch directory (1 in 8). In 1 of 4 adoptions the store is mqtt.FileSystem with 1-3 stray directory entries next to the records: an upper-case spelling of a record's name, a sub-directory named like a key, a spool leftover, foreign files, names of 4 and 6 hexadecimals. Damage kind 'hollow': a record whose bytes are well formed (sequence number plus matching checksum) yet hold no packet. One adoption in five is preceded by a misconfigured one (limits of 1) whose warnings count. Stray directories named like a record which a publish of the history will store are excluded by construction (open finding F31, probe TestC16KnownF31). The Delete which fails during adoption is the first to fourth; afterwards every outbound record still stored is either resumed by the client or the one whose Delete failed. Stray entries include symbolic links (to a directory, dangling) named like keys. AdoptSession runs under the hang oracle (no Persistence operation for 4 s).",
     'C17': "Also: resendFails (connection lost; the next one resets 0-80 bytes into the retransmission; the one after is healthy). ackDeleteFails (the Delete asked for by an acknowledgement fails; reconnect). TestC17Slots/TestC11CounterLap: in 1 of 3 cases an outage first, with 1032 requests refused while down. twoForTheLastSlot (one slot left, the reconnect parked inside its retransmission, two publishes arrive: exactly one ErrMax, no blocking). Behind the recording Persistence double sits, per case, its own map (5 in 8), the library's in-memory map (2 in 8) or mqtt.FileSystem on a scratch directory (1 in 8). Slots case: optionally a lone request abandoned after submission, then its successor (must not get the identifier whose answer is still owed).",
     'C18': "Also: in a held handshake a persisted publish whose Save is still running when the CONNACK arrives. Behind the recording Persistence double sits, per case, its own map (5 in 8), the library's in-memory map (2 in 8) or mqtt.FileSystem on a scratch directory (1 in 8). An attempt whose CONNECT gets through (also with one tolerated expiry after progress) and whose CONNACK accepts at once must establish the connection. Raw CONNACK variants include odd reserved flag bytes (0x03, 0x81, 0xff) with return code 0.",
 }
